@@ -186,15 +186,40 @@ func c11Catalogue(maxChain int) []option {
 				return pl
 			}})
 		}
-		mk("sharedParam", func(inst int) ([]string, gen.J) {
-			return []string{"parameters", "q" + strconv.Itoa(inst)}, gen.J{"name": "q", "in": "query", "type": "array"}
-		})
-		mk("pathParam", func(inst int) ([]string, gen.J) {
-			return []string{"paths", pt, "parameters", strconv.Itoa(4 + inst)}, gen.J{"name": "q" + strconv.Itoa(inst), "in": "query", "type": "array"}
-		})
-		mk("opParam", func(inst int) ([]string, gen.J) {
-			return []string{"paths", pt, "get", "parameters", strconv.Itoa(inst)}, gen.J{"name": "q" + strconv.Itoa(inst), "in": "query", "type": "array"}
-		})
+		// parameter locations rotate with the holder and the nesting depth (query, path, header, formData all occur on each holder)
+		locs := []string{"query", "path", "header", "formData"}
+		for k, in := range locs {
+			if k != d%4 && d != 1 {
+				continue // depth 1: every location; deeper: one location per depth
+			}
+			in := in
+			mk("sharedParam."+in, func(inst int) ([]string, gen.J) {
+				return []string{"parameters", "q" + strconv.Itoa(inst)}, gen.J{"name": "q", "in": in, "type": "array"}
+			})
+			mk("pathParam."+in, func(inst int) ([]string, gen.J) {
+				return []string{"paths", pt, "parameters", strconv.Itoa(4 + inst)}, gen.J{"name": "q" + strconv.Itoa(inst), "in": in, "type": "array"}
+			})
+			mk("opParam."+in, func(inst int) ([]string, gen.J) {
+				return []string{"paths", pt, "get", "parameters", strconv.Itoa(inst)}, gen.J{"name": "q" + strconv.Itoa(inst), "in": in, "type": "array"}
+			})
+		}
+		if d == 1 {
+			for mi, m := range oracle.Methods7 {
+				if m == "get" {
+					continue
+				}
+				m, in := m, locs[mi%4]
+				mk("opParam."+m+"."+in, func(inst int) ([]string, gen.J) {
+					return []string{"paths", pt, m, "parameters", strconv.Itoa(inst)}, gen.J{"name": "q" + strconv.Itoa(inst), "in": in, "type": "array"}
+				})
+				mk("codeHeader."+m, func(inst int) ([]string, gen.J) {
+					return []string{"paths", pt, m, "responses", "200", "headers", "X-H" + strconv.Itoa(inst)}, gen.J{"type": "array"}
+				})
+				mk("defaultHeader."+m, func(inst int) ([]string, gen.J) {
+					return []string{"paths", pt, m, "responses", "default", "headers", "X-H" + strconv.Itoa(inst)}, gen.J{"type": "array"}
+				})
+			}
+		}
 		mk("defaultHeader", func(inst int) ([]string, gen.J) {
 			return []string{"paths", pt, "get", "responses", "default", "headers", "X-H" + strconv.Itoa(inst)}, gen.J{"type": "array"}
 		})
